@@ -574,6 +574,64 @@ func (g *gctx) shiftMember(n *node) bool {
 	return true
 }
 
+// rotating the start vertex is a documented reordering for the closed rings of a polygon ONLY: a
+// line string / line of a multi-line-string / multi-point started at another vertex has (all of) its
+// vertices displaced. closeLines makes every such point list with >= 3 vertices EXACTLY closed (first
+// vertex appended), so that it looks like a ring; rotatePts rotates one of them (keeping it exactly
+// closed when it was) by 1 <= k < n positions.
+func isPtList(m *node) bool { return m.kind == kLS || m.kind == kLine || m.kind == kMP }
+
+func (g *gctx) closeLines(n *node) bool {
+	any := false
+	n.walk(func(m *node) {
+		if isPtList(m) && len(m.pts) >= 3 {
+			m.pts = append(m.pts[:len(m.pts):len(m.pts)], m.pts[0])
+			any = true
+		}
+	})
+	return any
+}
+
+func (g *gctx) rotatePts(n *node) bool {
+	m := g.pick(n.collect(func(m *node) bool { return isPtList(m) && len(m.pts) >= 2 }))
+	if m == nil {
+		return false
+	}
+	k := len(m.pts)
+	cl := k >= 4 && m.pts[0] == m.pts[k-1]
+	if cl {
+		k--
+	}
+	cyc := m.pts[:k]
+	// all vertices pairwise at least 3 lattice units apart in x or y: no rotation is within tol
+	for x := 0; x < k; x++ {
+		for y := x + 1; y < k; y++ {
+			if math.Abs(cyc[x].X-cyc[y].X) < 3*g.u() && math.Abs(cyc[x].Y-cyc[y].Y) < 3*g.u() {
+				return false
+			}
+		}
+	}
+	r := 1 + g.r.Intn(k-1)
+	rot := append(append([]geom.Point{}, cyc[r:]...), cyc[:r]...)
+	if cl {
+		rot = append(rot, rot[0])
+	}
+	m.pts = rot
+	return true
+}
+
+// exchange the two corners of a bounds value (its only "reordering")
+func (g *gctx) swapBounds(n *node) bool {
+	m := g.pick(n.collect(func(m *node) bool {
+		return m.kind == kB && (math.Abs(m.pts[0].X-m.pts[1].X) >= 3*g.u() || math.Abs(m.pts[0].Y-m.pts[1].Y) >= 3*g.u())
+	}))
+	if m == nil {
+		return false
+	}
+	m.pts[0], m.pts[1] = m.pts[1], m.pts[0]
+	return true
+}
+
 func (g *gctx) reverseRing(n *node) bool {
 	m := g.pick(n.collect(func(m *node) bool { return closed(m) && len(m.pts) >= 4 }))
 	if m == nil {
@@ -1108,13 +1166,22 @@ func corpus(out *bufio.Writer) {
 	// reversed line, reversed ring
 	emit(out, "reverse:F", 0.125, geom.LineString{P(0, 0), P(1, 0), P(2, 5)}, geom.LineString{P(2, 5), P(1, 0), P(0, 0)})
 	emit(out, "rreverse:?", 0.125, geom.Polygon{s}, geom.Polygon{geom.Path{s[0], s[3], s[2], s[1], s[0]}})
+	// a closed LINE started at another vertex is not a documented reordering (rings of polygons only)
+	cl := geom.LineString{P(0, 0), P(4, 0), P(4, 4), P(0, 4), P(0, 0)}
+	cr := geom.LineString{P(4, 4), P(0, 4), P(0, 0), P(4, 0), P(4, 4)}
+	emit(out, "lrotate:F", 0.125, cl, cr)
+	emit(out, "lrotate:F", 0.125, geom.MultiLineString{cl}, geom.MultiLineString{cr})
+	emit(out, "lrotate:F", 0.125, geom.GeometryCollection{cl}, geom.GeometryCollection{cr})
+	emit(out, "lrotate:F", 0.125, geom.MultiPoint(cl), geom.MultiPoint(cr))
+	emit(out, "rotate:T", 0.125, geom.Polygon{geom.Path(cl)}, geom.Polygon{geom.Path(cr)})
 	// exactly tol apart: strict comparison
 	emit(out, "boundary:?", 0.5, P(0, 0), P(0.5, 0))
 	emit(out, "boundary:?", 0.5, P(0, 0), P(0, -0.5))
 	emit(out, "perturb:T", 0.5, P(0, 0), P(0.4375, -0.4375))
 	// the last double below tol / the first above it (one operand 0, so that a-b is exact): "perturbed
 	// by less than tol" is true up to pred(tol), "displaced by more than tol" from succ(tol) on
-	for _, tol := range []float64{0.5, 0.1, 1.0 / (1 << 30), 3, 1 << 30} {
+	for _, tol := range []float64{0.5, 0.1, 1.0 / (1 << 30), 3, 1 << 30,
+		math.Ldexp(1, -52), math.Ldexp(1, -53), 1e-16, math.Ldexp(1, -60), 1e-19, math.Ldexp(1, -900), math.Ldexp(1, 900)} {
 		lo, hi := math.Nextafter(tol, 0), math.Nextafter(tol, math.Inf(1))
 		emit(out, "perturb:T", tol, P(0, 0), P(lo, 0))
 		emit(out, "perturb:T", tol, P(0, -lo), P(0, 0))
@@ -1210,14 +1277,25 @@ func gen(seed uint64, tier string) {
 	dy := []float64{1, 0.5, 0.25, 0.0625, 0.0078125, 0.0009765625, 4,
 		1.0 / (1 << 20), 1.0 / (1 << 30), 1 << 20, 1 << 30} // dyadic scaling keeps a-b exact
 	nd := []float64{0.1, 0.01, 1e-9, 3}
+	// far below the float64 resolution of 1 (2^-52) and far above its integer range (2^53): "a positive
+	// tolerance" has no scale; dyadic scaling keeps every a-b exact down to 2^-906 (subnormals start at 2^-1022)
+	dyx := []float64{math.Ldexp(1, -53), math.Ldexp(1, -60), math.Ldexp(1, -100), math.Ldexp(1, -500), math.Ldexp(1, -900),
+		math.Ldexp(1, 60), math.Ldexp(1, 500), math.Ldexp(1, 900)}
+	ndx := []float64{1e-16, 1e-19, 1e-30, 1e-200, 1e25}
 	bigCalls := 0
 	for it := 0; it < n; it++ {
 		g := &gctx{r: r, dyadic: it%5 != 4}
 		if g.dyadic {
 			g.tol = dy[r.Intn(len(dy))]
+			if it%6 == 2 {
+				g.tol = dyx[r.Intn(len(dyx))]
+			}
 			g.ox, g.oy = float64(r.Range(-40, 40))*64*g.tol, float64(r.Range(-40, 40))*64*g.tol
 		} else {
 			g.tol = nd[r.Intn(len(nd))]
+			if it%15 == 4 {
+				g.tol = ndx[r.Intn(len(ndx))]
+			}
 			g.ox, g.oy = float64(r.Range(-40, 40))*64.3*g.tol, float64(r.Range(-40, 40))*63.7*g.tol
 		}
 		if it%7 == 3 {
@@ -1267,6 +1345,30 @@ func gen(seed uint64, tier string) {
 		do("ringmove:F", g.moveRing)
 		do("ringswap:F", g.swapRings)
 		do("ringmove:F", func(b *node) bool { g.permute(b); g.rotate(b); g.perturb(b); return g.moveRing(b) })
+		// reorderings that are documented for ANOTHER type only: start vertex of a line / multi-point
+		// rotated (open lists here, exactly closed ones below), corners of a bounds exchanged
+		do("lrotate:F", g.rotatePts)
+		do("bswap:F", g.swapBounds)
+		if kind == kLS || kind == kMLS || kind == kMP || kind == kGC {
+			a3 := a.clone()
+			if g.closeLines(a3) {
+				a3g := a3.geom()
+				do3 := func(tag string, f func(b *node) bool) {
+					g.perturbed = false
+					b := a3.clone()
+					if f(b) && atMostOneVertexless(b) {
+						emit(out, tag, g.tol, a3g, b.geom())
+					}
+				}
+				do3("same:T", func(b *node) bool { return true })
+				do3("combo:T", func(b *node) bool { g.permute(b); g.rotate(b); g.perturb(b); return true })
+				do3("lrotate:F", g.rotatePts)
+				do3("lrotate:F", func(b *node) bool { g.permute(b); g.rotate(b); g.perturb(b); return g.rotatePts(b) })
+				do3("reverse:F", g.reverseLine)
+				do3("displace:F", g.displace)
+				do3("vswap:F", g.swapVertices)
+			}
+		}
 		if it%8 == 5 || it%8 == 6 {
 			a2 := g.ringOwners(g.r.Intn(3))
 			a2g := a2.geom()
